@@ -388,10 +388,59 @@ def check_sample_uniform(ctx):
     ctx.count("R01-INSIDE sample_uniform implementations", found, 1)
 
 
+def check_schedule_constants(ctx):
+    """Necessary for totality of the cross-validation stage of StroquOOL: every p in 0..p_max must find a searched
+    cell with at least 2^p evaluations (else the candidate is None and the next pull raises).  The root's
+    children are evaluated h_max times each, so 2^p_max <= h_max is required: p_max = floor(log2(h_max)) - the
+    published constant - is the largest such value.  Same for the schedule constants h_max it is derived from."""
+    import sympy as sp
+    from .. import summary as SM
+    from .. import symx as SX
+    from . import c12
+    model = ctx.model
+    c = model.cls("StroquOOL")
+    init = model.own_method("StroquOOL", "__init__")
+    ctx.fn("StroquOOL.__init__")
+    hs = model.own_method("StroquOOL", "harmonic_series_sum")
+    ok, why = c12.harmonic_ok(hs)
+    ctx.ob("R01-FORM", ok, c.file, "StroquOOL.harmonic_series_sum", "H_n = sum_{i=1..n} 1/i", why, hs.lineno)
+    Sm = SM.Summarizer(model, "StroquOOL")
+    ps = [p for p in Sm.run(init) if not p.raises]
+    T = Sm.T
+    n = T.sym("n")
+    H = None
+    for p in ps:
+        hm = p.stores.get("h_max")
+        pm = p.stores.get("p_max")
+        Hn = [a for a in (hm.atoms(sp.Function) if hm is not None else []) if "harmonic_series_sum" in str(a.func)]
+        okh = hm is not None and len(Hn) == 1 and SX.equivalent(hm, sp.floor(n / (2 * (Hn[0] + 1) ** 2)))[0] is True
+        ctx.ob("R01-FORM", okh, c.file, "StroquOOL.__init__", "h_max = floor(n / (2 (H_n + 1)^2))", "%s" % hm, init.lineno)
+        okp = pm is not None and hm is not None and SX.equivalent(pm, sp.floor(sp.log(hm) / sp.log(2)))[0] is True
+        ctx.ob("R01-FORM", okp, c.file, "StroquOOL.__init__", "p_max = floor(log2(h_max)) (so that 2^p_max <= h_max: every validation level has a candidate)",
+               "%s" % pm, init.lineno)
+
+
+def import_eval(ctx):
+    """SequOOL.get_last_point reads the first reward of every searched cell: a cell must not enter `chosen` before
+    it is handed out (IndexError otherwise) - C07's R07-EVAL obligations for SequOOL, re-reported."""
+    from ..report import Ctx
+    from . import c07
+    tmp = Ctx(ctx.prop, ctx.tier, ctx.seed, ctx.model)
+    cls = ctx.model.cls("SequOOL")
+    c07.check_eval(tmp, cls, None)
+    for o in tmp.obligations:
+        ctx.obligations.append(dict(o, rule="R01-EVAL"))
+    for f in tmp.findings:
+        ctx.add_finding("R01-EVAL", f.file, f.qual, f.construct, f.why, f.line)
+    ctx.shortfalls += tmp.shortfalls
+
+
 def run(ctx):
     check_attr(ctx)
     check_prov(ctx)
     check_sample_uniform(ctx)
+    check_schedule_constants(ctx)
+    import_eval(ctx)
     _partition.feed(ctx, (), rename={"R02-CENTRE": "R01-INSIDE", "R02-INSIDE": "R01-INSIDE", "R02-TOTAL": "R01-TOTAL"})
     return dict(
         explanation=(
